@@ -154,6 +154,10 @@ def pad_lines(frm, to, marks):
     return out
 
 
+# ordinary symbol names, some of which merely begin or end like a register / accumulator name (ac1buf1 is not ac1)
+LABEL_NAMES = ["lab%d", "ac1buf%d", "lab%d", "ac0_save%d", "r0x%d", "lab%d", "sp%d", "ac5%d", "pc%dq", "lab%d", "AC3TMP%d", "r%d0", "xac%d", "ac%dx"]
+
+
 def render_alone(rec, variant):
     """-> (source text, link start, byte offset of the instruction in the image, expected image length)"""
     A, L = rec["a"], rec["len"]
@@ -165,7 +169,7 @@ def render_alone(rec, variant):
         if plan["a"] < 0:
             names.append(None)
             continue
-        nm = (("1%d" % j) if shape == "locp" else str(j + 1)) if local else "lab%d" % (j + 1)      # locp: two-digit local names 10, 11
+        nm = (("1%d" % j) if shape == "locp" else str(j + 1)) if local else LABEL_NAMES[variant % len(LABEL_NAMES)] % (j + 1)      # locp: two-digit local names 10, 11
         names.append(nm)
         (near if plan["near"] else far).append((plan["a"], nm))
     lines = []
